@@ -18,6 +18,7 @@ From Coq Require Import ZArith List Bool.
 Require Import Bits.Lib.Result Bits.Lib.Bytes Bits.Model.Ecmath Bits.Model.Keys Bits.Model.Schnorr.
 Require Import Bits.Proofs.Ecmath Bits.Proofs.Ecdsa Bits.Proofs.Schnorr Bits.Proofs.SchnorrSign.
 Require Import Bits.Proofs.SmallCurves Bits.Proofs.SmallCurvesBig Bits.Proofs.SchnorrSmall.
+Require Bits.Proofs.Sec1 Bits.Proofs.SchnorrSec1.
 Require Bits.Spec.Bip340.
 Import ListNotations.
 Local Open Scope Z_scope.
@@ -40,6 +41,12 @@ Theorem C12_lift_x_fails_iff : forall p, 7 < p -> lift_facts p -> forall x, 0 <=
   (B.lift_x p x = None <-> forall y, ~ oncurve p 0 7 (Some (x, y))).
 Proof. exact lift_x_fails_iff. Qed.
 Print Assumptions C12_lift_x_fails_iff.
+
+(* the premise lift_facts follows from C14's record sqrt_facts (Proofs/Sec1.v): one hypothesis about square roots mod p
+   serves both properties on secp256k1 *)
+Theorem C12_lift_facts_from_sqrt_facts : forall p, Bits.Proofs.Sec1.sqrt_facts p -> lift_facts p.
+Proof. exact Bits.Proofs.SchnorrSec1.lift_facts_of_sqrt_facts. Qed.
+Print Assumptions C12_lift_facts_from_sqrt_facts.
 
 (* ---------------------------------------------------------------- verification *)
 (* accepted by the code => accepted by the BIP: for ALL byte strings pk, m, sig, no further premise *)
